@@ -2173,4 +2173,204 @@ theorem aggregate2_ok (es : List AEv) : agg2Ok es (aggregate2 es) = true := by
   exact ⟨percentile_ok 0 (by omega) es, percentile_ok 25 (by omega) es, percentile_ok 50 (by omega) es,
          percentile_ok 75 (by omega) es, percentile_ok 100 (by omega) es⟩
 
+/-! ### extremes over the extended reals -/
+
+/-- `xExtremeOk` on the list of numeric values itself -/
+def xExtP (le : XNum → XNum → Bool) (v : List XNum) (r : Option XNum) : Bool :=
+  match r with
+  | none => v.isEmpty
+  | some .nan => !v.isEmpty && (v.filter (· != .nan)).isEmpty
+  | some x => (v.filter (· != .nan)).contains x && (v.filter (· != .nan)).all (fun y => le x y)
+
+theorem xExtremeOk_eq (le : XNum → XNum → Bool) (vs : List (Option XNum)) (r : Option XNum) :
+    xExtremeOk le vs r = xExtP le (vs.filterMap id) r := by
+  unfold xExtremeOk xExtP
+  rfl
+
+theorem XNum.le_refl (a : XNum) : a.le a = true := by
+  simp [XNum.le]
+
+theorem XNum.le_total (a b : XNum) : a.le b = true ∨ b.le a = true := by
+  simp only [XNum.le, Bool.or_eq_true, Bool.and_eq_true, decide_eq_true_eq]
+  omega
+
+theorem XNum.le_trans (a b c : XNum) (h1 : a.le b = true) (h2 : b.le c = true) : a.le c = true := by
+  simp only [XNum.le, Bool.or_eq_true, Bool.and_eq_true, decide_eq_true_eq] at *
+  omega
+
+/-- what the step lemma needs of `(le, op)`: `op` skips NaN, picks an operand, and the pick is `le` both -/
+structure ExtOp (le : XNum → XNum → Bool) (op : XNum → XNum → XNum) : Prop where
+  nanL : ∀ b, op .nan b = b
+  nanR : ∀ a, op a .nan = a
+  refl : ∀ a, le a a = true
+  trans : ∀ a b c, le a b = true → le b c = true → le a c = true
+  pick : ∀ a b, a ≠ .nan → b ≠ .nan → (op a b = a ∧ le a b = true) ∨ (op a b = b ∧ le b a = true)
+
+theorem extOp_min : ExtOp XNum.le XNum.fmin where
+  nanL := by intro b; cases b <;> rfl
+  nanR := by intro a; cases a <;> rfl
+  refl := XNum.le_refl
+  trans := XNum.le_trans
+  pick := by
+    intro a b ha hb
+    have h : XNum.fmin a b = if a.le b then a else b := by
+      cases a <;> cases b <;> first | rfl | contradiction
+    rw [h]
+    cases hab : a.le b
+    · right; refine ⟨by simp, ?_⟩
+      rcases XNum.le_total a b with h' | h'
+      · rw [hab] at h'; contradiction
+      · exact h'
+    · left; simp
+
+theorem extOp_max : ExtOp (fun a b => XNum.le b a) XNum.fmax where
+  nanL := by intro b; cases b <;> rfl
+  nanR := by intro a; cases a <;> rfl
+  refl := XNum.le_refl
+  trans := fun a b c h1 h2 => XNum.le_trans c b a h2 h1
+  pick := by
+    intro a b ha hb
+    have h : XNum.fmax a b = if a.le b then b else a := by
+      cases a <;> cases b <;> first | rfl | contradiction
+    rw [h]
+    cases hab : a.le b
+    · left; refine ⟨by simp, ?_⟩
+      rcases XNum.le_total a b with h' | h'
+      · rw [hab] at h'; contradiction
+      · exact h'
+    · right; simp
+
+theorem nn_append (p : List XNum) (x : XNum) :
+    (p ++ [x]).filter (· != .nan) = p.filter (· != .nan) ++ (if x = .nan then [] else [x]) := by
+  rw [List.filter_append]
+  by_cases hx : x = .nan <;> simp [hx]
+
+theorem xExtP_step {le op} (H : ExtOp le op) (p : List XNum) (acc : Option XNum) (x : XNum)
+    (h : xExtP le p acc = true) : xExtP le (p ++ [x]) (xFold op acc x) = true := by
+  cases acc with
+  | none =>
+    have hp : p = [] := by simpa [xExtP] using h
+    subst hp
+    by_cases hx : x = .nan
+    · subst hx; simp [xFold, xExtP]
+    · have : xExtP le [x] (some x) = ((([x].filter (· != .nan)).contains x) && (([x].filter (· != .nan)).all (fun y => le x y))) := by
+        cases x <;> first | rfl | contradiction
+      simp [xFold, this, hx, H.refl]
+  | some m =>
+    by_cases hm : m = .nan
+    · subst hm
+      have hp : p ≠ [] ∧ p.filter (· != .nan) = [] := by simpa [xExtP] using h
+      simp only [xFold, H.nanL]
+      by_cases hx : x = .nan
+      · subst hx
+        simp [xExtP, hp.2]
+      · have : ∀ q, xExtP le q (some x) = (((q.filter (· != .nan)).contains x) && ((q.filter (· != .nan)).all (fun y => le x y))) := by
+          intro q; cases x <;> first | rfl | contradiction
+        rw [this, nn_append, hp.2]
+        simp [hx, H.refl]
+    · have hE : ∀ (y : XNum), y ≠ .nan → ∀ q, xExtP le q (some y) = (((q.filter (· != .nan)).contains y) && ((q.filter (· != .nan)).all (fun z => le y z))) := by
+        intro y hy q; cases y <;> first | rfl | contradiction
+      rw [hE m hm] at h
+      simp only [Bool.and_eq_true, List.contains_eq_mem, decide_eq_true_eq, List.all_eq_true] at h
+      obtain ⟨hmem, hall⟩ := h
+      simp only [xFold]
+      by_cases hx : x = .nan
+      · subst hx
+        rw [H.nanR, hE m hm, nn_append]
+        simp only [if_true, List.append_nil, Bool.and_eq_true, List.contains_eq_mem, decide_eq_true_eq, List.all_eq_true]
+        exact ⟨hmem, hall⟩
+      · rcases H.pick m x hm hx with ⟨ho, hle⟩ | ⟨ho, hle⟩
+        · rw [ho, hE m hm, nn_append, if_neg hx]
+          simp only [Bool.and_eq_true, List.contains_eq_mem, decide_eq_true_eq, List.all_eq_true, List.mem_append,
+            List.mem_singleton]
+          refine ⟨Or.inl hmem, ?_⟩
+          rintro y (hy | rfl)
+          · exact hall y hy
+          · exact hle
+        · rw [ho, hE x hx, nn_append, if_neg hx]
+          simp only [Bool.and_eq_true, List.contains_eq_mem, decide_eq_true_eq, List.all_eq_true, List.mem_append,
+            List.mem_singleton]
+          refine ⟨Or.inr trivial, ?_⟩
+          rintro y (hy | rfl)
+          · exact H.trans _ _ _ hle (hall y hy)
+          · exact H.refl _
+
+theorem xExtP_foldl {le op} (H : ExtOp le op) (v p : List XNum) (acc : Option XNum)
+    (h : xExtP le p acc = true) : xExtP le (p ++ v) (v.foldl (xFold op) acc) = true := by
+  induction v generalizing p acc with
+  | nil => simpa using h
+  | cons x v ih =>
+    have := ih (p ++ [x]) (xFold op acc x) (xExtP_step H p acc x h)
+    simpa using this
+
+theorem xMin_ok (vs : List (Option XNum)) : xMinOk vs (xMin vs) = true := by
+  unfold xMinOk xMin
+  rw [xExtremeOk_eq]
+  simpa using xExtP_foldl extOp_min (vs.filterMap id) [] none rfl
+
+theorem xMax_ok (vs : List (Option XNum)) : xMaxOk vs (xMax vs) = true := by
+  unfold xMaxOk xMax
+  rw [xExtremeOk_eq]
+  simpa using xExtP_foldl extOp_max (vs.filterMap id) [] none rfl
+
+theorem XNum.key_inj (a b : XNum) (h1 : a.key.1 = b.key.1) (h2 : a.key.2 = b.key.2) : a = b := by
+  cases a <;> cases b <;> simp_all [XNum.key]
+
+theorem XNum.le_antisymm (a b : XNum) (h1 : a.le b = true) (h2 : b.le a = true) : a = b := by
+  simp only [XNum.le, Bool.or_eq_true, Bool.and_eq_true, decide_eq_true_eq] at h1 h2
+  exact XNum.key_inj a b (by omega) (by omega)
+
+theorem xExtP_some {le} (y : XNum) (hy : y ≠ .nan) (q : List XNum) :
+    xExtP le q (some y) = (((q.filter (· != .nan)).contains y) && ((q.filter (· != .nan)).all (fun z => le y z))) := by
+  cases y <;> first | rfl | contradiction
+
+/-- the clause determines the answer -/
+theorem xExtP_unique {le : XNum → XNum → Bool} (anti : ∀ a b, le a b = true → le b a = true → a = b)
+    (v : List XNum) (r r' : Option XNum) (h : xExtP le v r = true) (h' : xExtP le v r' = true) : r = r' := by
+  have key : ∀ (s t : Option XNum), xExtP le v s = true → xExtP le v t = true → s = none → t = none := by
+    intro s t hs ht e
+    subst e
+    have hv : v = [] := by simpa [xExtP] using hs
+    subst hv
+    cases t with
+    | none => rfl
+    | some y =>
+      by_cases hy : y = .nan
+      · subst hy; simp [xExtP] at ht
+      · rw [xExtP_some y hy] at ht; simp at ht
+  have key2 : ∀ (s t : Option XNum), xExtP le v s = true → xExtP le v t = true → s = some .nan → t ≠ none → t = some .nan := by
+    intro s t hs ht e hn
+    subst e
+    have hv : v ≠ [] ∧ v.filter (· != .nan) = [] := by simpa [xExtP] using hs
+    cases t with
+    | none => contradiction
+    | some y =>
+      by_cases hy : y = .nan
+      · subst hy; rfl
+      · rw [xExtP_some y hy, hv.2] at ht; simp at ht
+  cases r with
+  | none => exact (key _ _ h h' rfl).symm
+  | some x =>
+    cases r' with
+    | none => exact key _ _ h' h rfl
+    | some y =>
+      by_cases hx : x = .nan
+      · subst hx; exact (key2 _ _ h h' rfl (by simp)).symm
+      · by_cases hy : y = .nan
+        · subst hy; exact key2 _ _ h' h rfl (by simp)
+        · rw [xExtP_some x hx] at h
+          rw [xExtP_some y hy] at h'
+          simp only [Bool.and_eq_true, List.contains_eq_mem, decide_eq_true_eq, List.all_eq_true] at h h'
+          rw [anti x y (h.2 y h'.1) (h'.2 x h.1)]
+
+/-! ### durations -/
+
+theorem dur_millis_roundtrip (n : Nat) : (Dur.fromMillis n).asMillis = n := by
+  simp only [Dur.fromMillis, Dur.asMillis]
+  omega
+
+theorem dur_micros_truncates (n : Nat) : (Dur.fromMicros n).asMillis = n / 1000 := by
+  simp only [Dur.fromMicros, Dur.asMillis]
+  omega
+
 end C12
